@@ -11,6 +11,7 @@ from .smt import HarnessError, fval
 
 
 import contextlib
+import time
 
 
 @contextlib.contextmanager
@@ -382,35 +383,61 @@ def rlt_refute(ses, G1, H1, vars1, G2, H2, vars2, extra_ge, viol_gt, label, time
     block, 2: realisation and its auxiliaries), coupled only through bilinear facts.  All products
     g1*g2 >= 0, h1*w = 0 (w in vars2), h2*v = 0 (v in vars1) are added, every degree-2 monomial is replaced by a
     fresh real variable, and the linear system is decided (QF_LRA).  The linearisation only adds models, so `unsat`
-    proves that the original (true-cone) system has no solution; `sat` proves nothing."""
+    proves that the original (true-cone) system has no solution; `sat` proves nothing.
+
+    Large systems (> 400 rows) are decided lazily: z3 decides a SUB-system (unsat of a sub-system is unsat of the system), a
+    model of the sub-system is evaluated exactly on all rows and the violated ones are added, until unsat or until a model
+    satisfies every row.  The first sub-system is chosen by a floating-point LP (HiGHS): the rows with non-zero multipliers in
+    its infeasibility / optimality certificate.  The float LP only SELECTS rows; every verdict is z3's, over exact rationals."""
     z3 = z3mod()
     table = {}
+    rows = []          # (coef {key: Fraction}, const Fraction, 'ge' | 'eq')
 
-    def lin(p):
-        t = z3.RealVal(0)
+    def split(p):
+        coef, const = {}, Fraction(0)
         for m, c in p.t.items():
             if len(m) == 0:
-                t = t + z3.RealVal(str(c))
+                const += c
                 continue
             if len(m) > 2:
                 raise HarnessError('rlt: degree > 2')
             key = m if len(m) == 1 else tuple(sorted(m))
+            coef[key] = coef.get(key, 0) + c
+        return coef, const
+
+    def term(coef, const):
+        t = z3.RealVal(str(const))
+        for key, c in coef.items():
             if key not in table:
                 table[key] = z3.Real('m_' + '*'.join(key))
             t = t + z3.RealVal(str(c)) * table[key]
         return t
-    cs = [lin(g) >= 0 for g in G1 + G2] + [lin(h) == 0 for h in H1 + H2]
+
+    def add(p, kind):
+        coef, const = split(p)
+        rows.append((coef, const, kind))
+    for g in G1 + G2:
+        add(g, 'ge')
+    for h in H1 + H2:
+        add(h, 'eq')
     for g1 in G1:
         for g2 in G2:
-            cs.append(lin(g1 * g2) >= 0)
+            add(g1 * g2, 'ge')
     for h in H1:
         for w in vars2:
-            cs.append(lin(h * Poly.var(w)) == 0)
+            add(h * Poly.var(w), 'eq')
     for h in H2:
         for v in vars1:
-            cs.append(lin(h * Poly.var(v)) == 0)
-    cs += [lin(e) >= 0 for e in extra_ge]
-    neg = [lin(v) > 0 for v in viol_gt]
+            add(h * Poly.var(v), 'eq')
+    for e in extra_ge:
+        add(e, 'ge')
+    viol = [split(v) for v in viol_gt]
+    cs = [(term(c, k) >= 0) if kind == 'ge' else (term(c, k) == 0) for c, k, kind in rows]
+    neg = [term(c, k) > 0 for c, k in viol]
+    if len(cs) > 400:
+        res = _lazy_lra(ses, rows, viol, term, table, cs, neg, timeout_ms, label)
+        if res != 'unknown':
+            return (res, None), cs
     # equalities first: Gaussian elimination (solve-eqs) shrinks the system ~50x before simplex sees it
     if len(cs) > 800:
         # large systems: separate process under a hard limit (exact simplex does not poll z3's timer)
@@ -420,6 +447,92 @@ def rlt_refute(ses, G1, H1, vars1, G2, H2, vars2, extra_ge, viol_gt, label, time
     if res[0] == 'unknown':
         res = ses.solve(cs + [z3.Or(neg)], timeout_ms=timeout_ms, label=label + '/rlt-plain')
     return res, cs
+
+
+def _float_support(rows, viol, keys):
+    """Rows with non-zero multipliers in the HiGHS certificate of  max viol(y)  s.t. rows, |y| <= 1e4  (per violation
+    polynomial): a heuristic selection of rows, nothing else."""
+    try:
+        from scipy.optimize import linprog
+        from scipy.sparse import lil_matrix
+    except Exception:  # noqa
+        return set()
+    idx = {k: i for i, k in enumerate(keys)}
+    ge = [i for i, r in enumerate(rows) if r[2] == 'ge']
+    eq = [i for i, r in enumerate(rows) if r[2] == 'eq']
+    A = lil_matrix((len(ge), len(keys)))
+    b = np.zeros(len(ge))
+    for a, i in enumerate(ge):
+        for k, c in rows[i][0].items():
+            A[a, idx[k]] = -float(c)
+        b[a] = float(rows[i][1])
+    E = lil_matrix((len(eq), len(keys)))
+    d = np.zeros(len(eq))
+    for a, i in enumerate(eq):
+        for k, c in rows[i][0].items():
+            E[a, idx[k]] = float(c)
+        d[a] = -float(rows[i][1])
+    sel = set()
+    for coef, const in viol:
+        c = np.zeros(len(keys))
+        for k, v in coef.items():
+            if k in idx:
+                c[idx[k]] = -float(v)
+        try:
+            r = linprog(c, A_ub=A.tocsr() if len(ge) else None, b_ub=b if len(ge) else None,
+                        A_eq=E.tocsr() if len(eq) else None, b_eq=d if len(eq) else None,
+                        bounds=[(-1e4, 1e4)] * len(keys), method='highs')
+        except Exception:  # noqa
+            continue
+        if r.status != 0:
+            continue
+        if len(ge):
+            for a, m in enumerate(r.ineqlin.marginals):
+                if abs(m) > 1e-9:
+                    sel.add(ge[a])
+        if len(eq):
+            for a, m in enumerate(r.eqlin.marginals):
+                if abs(m) > 1e-9:
+                    sel.add(eq[a])
+    return sel
+
+
+def _lazy_lra(ses, rows, viol, term, table, cs, neg, timeout_ms, label, rounds=60, batch=150):
+    z3 = z3mod()
+    t0 = time.time()
+    keys = sorted({k for c, _, _ in rows for k in c} | {k for c, _ in viol for k in c})
+    for k in keys:
+        if k not in table:
+            table[k] = z3.Real('m_' + '*'.join(k))
+    active = _float_support(rows, viol, keys)
+    ses.stats.kinds['rlt-lazy'] = ses.stats.kinds.get('rlt-lazy', 0) + 1
+    for rnd in range(rounds):
+        left = timeout_ms / 1000.0 - (time.time() - t0)
+        if left <= 1:
+            return 'unknown'
+        sub = [cs[i] for i in sorted(active)]
+        res, model = ses.solve(sub + [z3.Or(neg)], timeout_ms=int(min(left, 20) * 1000), tactic=('simplify', 'solve-eqs', 'smt'),
+                               label='%s/rlt-lazy%d(%d rows)' % (label, rnd, len(sub)))
+        if res == 'unsat':
+            return 'unsat'
+        if res != 'sat':
+            return 'unknown'
+        val = {}
+        for k in keys:
+            v = model.eval(table[k], model_completion=True)
+            val[k] = Fraction(v.numerator_as_long(), v.denominator_as_long())
+        bad = []
+        for i, (coef, const, kind) in enumerate(rows):
+            if i in active:
+                continue
+            t = const + sum((c * val[k] for k, c in coef.items()), Fraction(0))
+            if (kind == 'ge' and t < 0) or (kind == 'eq' and t != 0):
+                bad.append((abs(t), i))
+        if not bad:
+            return 'sat'
+        bad.sort(reverse=True)
+        active |= {i for _, i in bad[:batch]}
+    return 'unknown'
 
 
 def rlt_block(ses, cp, blk, G2, H2, T2, vars2, viol, label, kind, sample=None, timeout_ms=None, Q2=(), full_pairing=False):
